@@ -365,6 +365,8 @@ func edfCorpus() map[string]any {
 		"error":  errors.New("some failure"),
 		"time":   time.Unix(1700000000, 123),
 		"array":  [4]uint32{9, 8, 7, 6},
+		"array2": [3][5]uint8{{1, 2, 3, 4, 5}, {6, 7, 8, 9, 10}, {11, 12, 13, 14, 15}},
+		"array3": [][2][2]uint16{{{1, 2}, {3, 4}}, {{5, 6}, {7, 8}}},
 		"nested": map[string][]map[int8]string{"a": {{1: "x"}, {}}, "b": nil},
 		"bool":   true,
 	}
@@ -392,6 +394,12 @@ func (r *HostRunner) RunEdf(c *EdfCase) error {
 		m[at] = 0xff
 		if c.Arg2 > 0 && at+1 < len(m) {
 			m[at+1] = 0xff
+		}
+	case "setff2":
+		// two length fields at once (nested containers): positions at and at+Arg2
+		m[at] = 0xff
+		if at+c.Arg2 < len(m) {
+			m[at+c.Arg2] = 0xff
 		}
 	case "set00":
 		m[at] = 0
